@@ -151,8 +151,10 @@ void h_c15_write(void)
                            symbolic execution can see that the byte is never the string terminator (keeps output positions concrete) */
                         int b0 = kv_in_int() != 0, b1 = kv_in_int() != 0;
                         char c = b0 ? (b1 ? '-' : 'A') : (b1 ? 'c' : 'N');
-#ifdef KV_CONCRETE_ROWS
-                        c = 'A';
+#ifdef KV_FREE
+                        /* wide shapes: only the last KV_FREE columns are symbolic, the others cycle through a fixed pattern
+                           (60 symbolic columns make the MSF checksum arithmetic run > 20 min) */
+                        if(j < KV_W - KV_FREE){ c = "AcN-"[(i + j) % 4]; }
 #endif
                         rows[i][j] = c; m->sequences[i]->seq[j] = c;
                         if(c != '-'){ nres++; }
@@ -218,6 +220,106 @@ void h_c15_write(void)
         (void)total;
         KV_REACH();
 }
+/* ------------------------------------------------------------------------------------------------ C06 round trip
+ * The reader of the same format is run on the PRESCRIBED text (which C15.writers shows to be, byte for byte, what the
+ * writer emits for this alignment): same number of rows, same order, same names, same residues, and the same gaps in
+ * the same places (gap counts in front of every residue and after the last one).                                       */
+static void fasta_text(void)
+{
+        int i, j;
+        for(i = 0; i < KV_N; i++){
+                line_begin(); sb_putc(&cur, '>'); sb_puts(&cur, names[i]); line_end();
+                for(j = 0; j < KV_W; j += 60){
+                        int k;
+                        line_begin();
+                        for(k = j; k < KV_W && k < j + 60; k++){ sb_putc(&cur, rows[i][k]); }
+                        line_end();
+                }
+        }
+}
+
+void h_c06_roundtrip(void)
+{
+        struct in_buffer* b = NULL;
+        struct msa* m = NULL;
+        int i, j, rc;
+        for(i = 0; i < KV_N; i++){
+                int nres = 0;
+                for(j = 0; j < KV_W; j++){
+                        int b0 = kv_in_int() != 0, b1 = kv_in_int() != 0;
+                        char c = b0 ? (b1 ? '-' : 'A') : (b1 ? 'c' : 'N');
+                        rows[i][j] = c;
+                        if(c != '-'){ nres++; }
+                }
+                rows[i][KV_W] = 0;
+                KV_ASSUME(nres >= 1);
+                for(j = 0; j < kv_nl[i]; j++){ names[i][j] = "aZ7_.|-b"[(i * 3 + j) % 8]; }
+                names[i][kv_nl[i]] = 0;
+        }
+        kv_exp_n = 0;
+#if KV_FMT == 0
+        fasta_text();
+#elif KV_FMT == 1
+        spec_clustal();
+#else
+        kv_spec_total = 0;
+        spec_msf();
+        /* the MSF: line is compared by value in C15.writers; here it only has to carry its keyword */
+        { int k; for(k = 0; k < kv_exp_n; k++){ if(kv_exp_len[k] < 0){ cur.s = kv_exp[k]; cur.cap = KV_MAXLINELEN + 1; cur.n = 0; sb_puts(&cur, " stdout  MSF: 1  Type: N  DATE  Check: 1  .."); sb_end(&cur); kv_exp_len[k] = (int)cur.n; } } }
+#endif
+        rc = alloc_in_buffer(&b, kv_exp_n + 1);
+        KV_ASSUME(rc == OK);
+        for(i = 0; i < kv_exp_n; i++){
+                /* the writers print every line with "%s\n"; a line whose text is "\n" therefore reads back as two empty lines */
+                int len = kv_exp_len[i];
+                char* l;
+                if(len == 1 && kv_exp[i][0] == '\n'){ len = 0; }
+                l = malloc((size_t)len + 1);
+                __CPROVER_assume(l != NULL);
+                for(j = 0; j < len; j++){ l[j] = kv_exp[i][j]; }
+                l[len] = 0;
+                b->l[b->n_lines]->line = l;
+                b->l[b->n_lines]->len = len;
+                b->n_lines++;
+        }
+#if KV_FMT == 0
+        rc = read_fasta(b, &m);
+#elif KV_FMT == 1
+        rc = read_clu(b, &m);
+#else
+        rc = read_msf(b, &m);
+#endif
+        KV_CHECK(rc == OK && m != NULL, "reader accepts what the writer of the same format produces");
+        if(rc == OK && m != NULL){
+                KV_CHECK(m->numseq == KV_N, "round trip: same number of rows");
+                for(i = 0; i < KV_N; i++){
+                        struct msa_seq* s = m->sequences[i];
+                        int p = 0, pend = 0;
+                        for(j = 0; j <= kv_nl[i]; j++){ KV_CHECK(s->name[j] == names[i][j], "round trip: same names, same order"); }
+                        for(j = 0; j < KV_W; j++){
+                                if(rows[i][j] == '-'){ pend++; }
+                                else{
+                                        KV_CHECK(s->seq[p] == rows[i][j], "round trip: same residues (letters and case)");
+                                        KV_CHECK(s->gaps[p] == pend, "round trip: the same gaps in the same places");
+                                        p++; pend = 0;
+                                }
+                        }
+                        KV_CHECK(s->len == p, "round trip: same residue count");
+                        KV_CHECK(s->gaps[p] == pend, "round trip: same trailing gaps");
+                }
+                kalign_free_msa(m);
+        }
+        free_in_buffer(b);
+        KV_REACH();
+}
 #ifdef KV_NATIVE
-int main(void){ h_c15_write(); return kv_failed ? 1 : 0; }
+int main(void)
+{
+#ifdef KV_ENTRY_ROUNDTRIP
+        h_c06_roundtrip();
+#else
+        h_c15_write();
+#endif
+        return kv_failed ? 1 : 0;
+}
 #endif
